@@ -413,7 +413,7 @@ theorem placeInit_eq [Add K] [Sub K] [Mul K] [Neg K] [Zero K] [One K] (f : K)
     (T : List (String × Template K)) (rs : List (Res K))
     (out : List (Nat × V3 K)) (built : List Nat) (h : placeInitCoords f T rs = some (out, built)) :
     ∃ parts, rs.mapM (placeRes f T) = some parts ∧ out = parts.flatten ∧
-      built = (rs.filter (·.backmap)).map (·.resid) := by
+      built = (rs.filter (·.backmap)).map (·.node) := by
   induction rs generalizing out built with
   | nil => simp [placeInitCoords] at h; obtain ⟨rfl, rfl⟩ := h; exact ⟨[], rfl, rfl, rfl⟩
   | cons r rs ih =>
